@@ -472,3 +472,160 @@ def worker_facts(scn):
 
 def c08m(scn, x):
     return c08(scn, x, worker_facts(scn))
+
+
+# ------------------------------------------------------------------------------------------------
+# C10
+# ------------------------------------------------------------------------------------------------
+ALL_STATUSES = ["fail", "error", "pass", "warn", "skip", "cancel", "interrupted", "unknown"]
+
+
+def retry_config(scn):
+    P = scn.params
+    replay = bool(P.get("replay"))
+    if replay:
+        rerun = [s for s in str(P.get("rerun_status", "fail,error,warn")).split(",") if s]
+    else:
+        rerun = str(P.get("rerun_status", "")).split() or list(ALL_STATUSES)
+    stop = str(P.get("stop_status", "")).split()
+    mt = P.get("max_tries")
+    mt = int(mt) if mt not in (None, "") else (2 if replay else 1)
+    return replay, set(rerun), set(stop), mt
+
+
+def should_continue(seq, max_tries, rerun, stop):
+    """Reference decision table: may the test be executed (again) given the statuses obtained so far (incl. a previous job's)?"""
+    if len(seq) == 0:
+        return True
+    if max_tries == 1:
+        return False
+    if any(s not in rerun for s in seq):
+        return False
+    if any(s in stop for s in seq):
+        return False
+    return len(seq) < max_tries
+
+
+def c10(scn, x):
+    out = []
+    invalid = getattr(scn, "invalid_setting", None)
+    if invalid:
+        if x.exc is None:
+            out.append({"what": f"invalid retry setting {invalid} was silently accepted ({len(starts(x))} executions, no error)",
+                        "signature": {"clause": "invalid-accepted", "setting": invalid.split('=')[0]}})
+        return out
+    if x.exc is not None:
+        out.append({"what": f"traversal failed with {x.exc}", "signature": {"clause": "exception"}})
+        return out
+    replay, rerun, stop, mt = retry_config(scn)
+    nworkers = len(scn.nets.split())
+    # previous job's statuses per worker-invariant test
+    prev = collections.defaultdict(list)
+    for r in scn.previous:
+        prev[_strip_nets(r["name"])].append(r["status"].lower())
+    by_test = collections.defaultdict(list)
+    seq2start = {}
+    for e in x.trace:
+        if e["k"] == "start":
+            seq2start[e["seq"]] = e
+            by_test[e["ident"]].append(e)
+    ended = collections.defaultdict(list)  # ident -> [(t, status)]
+    for e in x.trace:
+        if e["k"] == "end":
+            status = e["status"]
+            if status == "NORESULT":
+                status = "ERROR"
+            ended[e["ident"]].append((e["t"], status.lower(), e["seq"]))
+    # found-at-first-examination setup is never run (C03); here only tests that were examined as missing or are stateless
+    first_check = {}
+    for e in x.trace:
+        if e["k"] == "door" and e["do"] == "check" and e["ident"] not in first_check:
+            first_check[e["ident"]] = e["answer"]
+    for n in x.final["nodes"]:
+        if n["flat"] or n["shared_root"] or n["clone_source"]:
+            continue
+        ident = n["ident"]
+        if n["object_root"] or "stateless.noop" in ident:
+            continue  # creation (two-step) is budgeted by C03
+        execs = by_test.get(ident, [])
+        uids = [e["uid"] for e in execs]
+        if len(set(uids)) != len(uids):
+            out.append({"what": f"executions of {short(ident)} share identifiers: {uids}", "signature": {"clause": "duplicate-uid"}})
+    # per worker-invariant test: decision table
+    idents = {n["ident"] for n in x.final["nodes"] if not n["flat"] and not n["shared_root"] and not n["clone_source"]
+              and not n["object_root"] and "stateless.noop" not in n["ident"]}
+    for ident in idents:
+        stateful = any(n["sets"] for n in x.final["nodes"] if n["ident"] == ident)
+        p = list(prev.get(ident, []))
+        obtained = [s for (_, s, _) in sorted(ended[ident])]
+        n_exec = len(by_test.get(ident, []))
+        if stateful and first_check.get(ident) is True:
+            if n_exec:
+                out.append({"what": f"setup test {short(ident)} found present but executed {n_exec} times", "signature": {"clause": "present-but-run"}})
+            continue
+        if stateful and ident not in first_check and not n_exec:
+            continue  # never examined (e.g. its dependants did not need it)
+        # "unless a state it produces is missing": a missing state forces one execution whatever the previous result was
+        if nworkers == 1:
+            # exact count: execute while the table says continue
+            expected = 0
+            seq = list(p)
+            outcomes = list(obtained)
+            while should_continue(seq, mt, rerun, stop) or (stateful and first_check.get(ident) is False and expected == 0):
+                if expected >= len(outcomes):
+                    expected += 1  # would have needed one more execution than happened
+                    break
+                seq.append(outcomes[expected])
+                expected += 1
+            if expected != n_exec:
+                out.append({"what": f"{short(ident)} executed {n_exec} times, the retry rules give exactly {expected} for previous={p} outcomes={obtained} "
+                                    f"(max_tries={mt}, rerun={sorted(rerun) if len(rerun) < 8 else 'all'}, stop={sorted(stop)})",
+                            "signature": {"clause": "wrong-count", "more": n_exec > expected}})
+        else:
+            # several workers: no execution may start once the statuses obtained so far (in trace order) forbid another try
+            obtained_so_far = list(p)
+            flagged = False
+            for ev in x.trace:
+                if ev["k"] == "end" and ev["ident"] == ident:
+                    obtained_so_far.append("error" if ev["status"] == "NORESULT" else ev["status"].lower())
+                elif ev["k"] == "start" and ev["ident"] == ident and not flagged:
+                    known = list(obtained_so_far)
+                    forced_first = stateful and first_check.get(ident) is False and not any(e2["k"] == "start" and e2["ident"] == ident and e2["seq"] < ev["seq"] for e2 in x.trace)
+                    if known and not forced_first and (any(s_ not in rerun for s_ in known) or any(s_ in stop for s_ in known)):
+                        flagged = True
+                        out.append({"what": f"{short(ident)} started again on {ev['w']} at t={ev['t']} although statuses {known} were already obtained "
+                                            f"(rerun={sorted(rerun) if len(rerun) < 8 else 'all'}, stop={sorted(stop)})",
+                                    "signature": {"clause": "started-after-stop"}})
+            if n_exec > max(mt, 1) and not stateful:
+                out.append({"what": f"{short(ident)} executed {n_exec} times with max_tries={mt}", "signature": {"clause": "over-budget"}})
+    # each execution reads its own result: the results stored on the nodes are the outcomes the world assigned, try by try
+    for n in x.final["nodes"]:
+        if n["flat"] or n["shared_root"]:
+            continue
+        mine = [(e["seq"], e["uid"]) for e in by_test.get(n["ident"], []) if e["name"] == n["name"]]
+        world = []
+        for seq, uid in mine:
+            end = next((s for (t, s, q) in ended[n["ident"]] if q == seq), None)
+            if end is not None:
+                world.append(end.upper())
+        stored = [r for r in n["results"]][len([r for r in scn.previous if re.search(re.escape(_strip_nets(r["name"])), n["name"])]):] if False else list(n["results"])
+        nprev = len(stored) - len(world)
+        if nprev < 0 or stored[nprev:] != world:
+            # time-based PASS->WARN conversion is part of the documented behaviour; tolerate only that
+            conv = len(stored) - nprev == len(world) and all(a == b or (b == "PASS" and a == "WARN") for a, b in zip(stored[max(nprev, 0):], world))
+            if not conv:
+                out.append({"what": f"results recorded for {short(n['ident'])} on its node are {stored} but its executions ended {world} (in order)",
+                            "signature": {"clause": "wrong-result-read"}})
+    # verdict
+    names = collections.defaultdict(list)
+    for r in x.final["job_results"]:
+        names[r["name"]].append(r["status"])
+    expected_ok = all(any(s in ACCEPTABLE for s in sts) for sts in names.values())
+    if x.final["all_ok"] is not expected_ok:
+        out.append({"what": f"run reported {'successful' if x.final['all_ok'] else 'failed'} but the executed tests' results are {dict(names)}",
+                    "signature": {"clause": "verdict"}})
+    return out
+
+
+def _ended_before(x, ident, start_event, t):
+    return True
